@@ -346,7 +346,7 @@ def torch_clamp(interp, x, min=None, max=None):
 @lib("torch.where")
 def torch_where(interp, cond, a=None, b=None):
     if a is None and b is None:
-        sel = T.Selection(cond)
+        sel = T.selection_of(cond)
         return tuple(sel.index_tensors())
     return T.where3(cond, a, b)
 
@@ -1047,4 +1047,42 @@ def F_pad(interp, x, pad, mode="constant", value=None):
 
     out = STensor(shape, x.dtype, fn=fn, kind=x.kind)
     out.pad_of = (x, lo, hi)
+    return out
+
+
+# torchvision ---------------------------------------------------------------------------
+
+_RESIZE_V = {}
+
+
+@lib("torchvision.transforms.v2.functional.resize", "torchvision.transforms.functional.resize")
+def tv_resize(interp, img, size, interpolation=None, max_size=None, antialias=True):
+    """Trusted contract: output shape (..., size[0], size[1]); pixel values are an
+    uninterpreted (finite) function of the input -- the documented sampling map
+    src = (dst + 0.5) * in/out - 0.5 is used only in the registration lemma of C04."""
+    if isinstance(size, (int,)) or V.is_int_kind(size):
+        raise Unsupported("resize with a single int size (keeps aspect ratio)")
+    h, w = [x.at([0] * x.rank) if isinstance(x, STensor) else x for x in interp.iterate_concrete(size)]
+    if img.rank < 2:
+        raise PyExc("TypeError", ("resize expects an image tensor",))
+    interp.path.require(V.b_and(V.i_le(1, h), V.i_le(1, w)), "RuntimeError", "Input and output sizes should be greater than 0")
+    shape = list(img.shape[:-2]) + [h, w]
+    if all(isinstance(d, int) for d in shape) and all(isinstance(d, int) for d in img.shape) and img.is_concrete():
+        # concrete (cross-check / replay) mode: the real library computes the pixels
+        try:
+            import torch
+            import torchvision.transforms.v2.functional as tvf
+        except Exception:
+            raise Unsupported("resize of a concrete image needs torchvision (replay side only)")
+        import itertools as _it
+
+        rd = img.reader()
+        flat = [rd(list(ix)) for ix in _it.product(*[range(d) for d in img.shape])]
+        res = tvf.resize(torch.tensor(flat, dtype=torch.float32).reshape(img.shape), size=[h, w])
+        return T.from_flat(list(res.shape), res.reshape(-1).tolist(), FLOAT, kind=img.kind)
+    nm = V.fresh_name("resized")
+    r = len(shape)
+    f = z3.Function(nm, *([z3.IntSort()] * r + [z3.RealSort()]))
+    out = STensor(shape, FLOAT if img.dtype == FLOAT else img.dtype, fn=(lambda idx: V.finite_real(f(*[V.zint(i) for i in idx]))) if img.dtype == FLOAT else (lambda idx: z3.ToInt(f(*[V.zint(i) for i in idx]))), kind=img.kind)
+    out.resize_of = (img, img.shape[-2], img.shape[-1], h, w)
     return out
